@@ -49,6 +49,18 @@ def corruptions(data):
            ('flipped', data[:len(data) // 2] + bytes([data[len(data) // 2] ^ 0xFF]) + data[len(data) // 2 + 1:]),
            ('overwritten-head', b'\x80\x05' + b'X' * 20 + data[22:]),
            ('doubled', data + data), ('proto-only', data[:2])]
+    # garbage that unpickles to an object of the right class but not to a usable item: pickle restores the attributes it finds
+    # without calling __init__, so an item may lack any of them
+    try:
+        for attr in ('node', 'lines', 'change_time', 'last_used'):
+            it = pickle.loads(data)
+            delattr(it, attr)
+            out.append(('incomplete-item:' + attr, pickle.dumps(it, pickle.HIGHEST_PROTOCOL)))
+        it = pickle.loads(data)
+        it.change_time = 'yesterday'
+        out.append(('incomplete-item:change_time-not-a-number', pickle.dumps(it, pickle.HIGHEST_PROTOCOL)))
+    except Exception:  # noqa
+        pass
     n = len(data)
     if DEEP[0]:
         offs = list(range(0, n))                                  # every truncation offset
